@@ -33,6 +33,7 @@ type Job struct {
 	File        string  `json:"file"` // replay / minimize input
 	FileOut     string  `json:"file_out"`
 	DumpRuns    string  `json:"dump_runs"` // selftest: one line per run with its hashes
+	StartI      int     `json:"start_i"`   // first iteration (a successor of a worker that stopped early continues its sequence)
 	Known       []Known `json:"known"`     // open known findings: counted, not reported as failures
 	Current     string  `json:"current"`   // file that always holds the run in progress (for hang reports)
 	WatchdogS   int     `json:"watchdog_s"`
@@ -65,6 +66,10 @@ type Summary struct {
 	Samples     []json.RawMessage `json:"samples"`
 	Failures    int               `json:"failures"`
 	KnownSeen   map[string]int    `json:"known_seen"`
+	// NextI: the iteration a successor of this worker continues with; Poisoned: the worker stopped
+	// early only because a run (a known finding) left goroutines behind that would disturb later runs
+	NextI    int  `json:"next_i"`
+	Poisoned bool `json:"poisoned"`
 }
 
 var activeRun struct {
@@ -196,7 +201,8 @@ func explore(t *testing.T, p Property, job Job, out *outWriter) {
 	if job.MaxFailures <= 0 {
 		job.MaxFailures = 2
 	}
-	for i := 0; ; i++ {
+	for i := job.StartI; ; i++ {
+		sum.NextI = i + 1
 		if job.MaxRuns > 0 && i >= job.MaxRuns {
 			break
 		}
@@ -285,6 +291,7 @@ func explore(t *testing.T, p Property, job Job, out *outWriter) {
 			}
 			if isKnown {
 				if poisoned {
+					sum.Poisoned = true
 					break
 				}
 				continue
@@ -303,6 +310,7 @@ func explore(t *testing.T, p Property, job Job, out *outWriter) {
 			continue
 		}
 		if poisoned {
+			sum.Poisoned = true
 			break
 		}
 		// determinism spot check: same seed, same process, must give the same schedule and history
